@@ -104,7 +104,9 @@ func C01(p *load.Prog, r *report.Report) {
 				}
 			}
 		}
-		diff := coef.Sub(want)
+		// the path's own assumptions about k (e.g. a k = 0 shortcut) apply to both sides
+		coefP, wantP := it.DeepApplyTerm(coef), it.DeepApplyTerm(want)
+		diff := coefP.Sub(wantP)
 		if dc, ok := diff.IsConst(); ok && dc.Sign() == 0 && !extra {
 			r.OK("C01.ladder", "Multiply(P,k) ladder", "receiver = [Σ_{i<256} 2^i·BIT(Canon(k),i)]·P = [k]P; 256 joined ladder steps")
 		} else {
